@@ -8,6 +8,10 @@ HERE = os.path.dirname(os.path.dirname(os.path.abspath(__file__)))
 TECH = "contract-based deductive verification: VCs generated from the AST of the real functions against sidecar contracts, discharged by z3 (cvc5 on unknowns)"
 
 CLAIMED = {
+  'C01': dict(
+    text="lineReceived, datagramReceived, stringReceived, metricReceived and Event.__call__ are verified from source: a well-formed line / datagram line / pickle entry yields exactly one dispatch with the decoded name and (float(timestamp), float(value)) (positional for pickle), the handler keeps no state between frames, every event handler is called once in order; delimiter and base classes are pinned syntactically. Independence of TCP segmentation is Twisted's (assumed contract), validated by an exhaustive bounded stand-in.",
+    note="A-TWISTED-FRAMING (bounded: all segmentations of short streams on the real protocol classes, labelled bounded, not counted as proved); string/pickle library behaviour through raise/return contracts (A-STR, A-PICKLE) with the line's fields as uninterpreted functions of the text; A-ENGINE, A-SMT",
+    tech=TECH + "; per-frame/per-item effect-log contracts; bounded stand-in only for the Twisted framing dependency"),
   'C02': dict(
     text="store, pop, drain_metric, get_datapoints and the cache-query handlers are verified from source against whole-view contracts (data' = data[m][ts:=v] / data \\ {m}, result = strictly sorted items) and the lock invariant size == sum of held datapoints, for every state and input; interleavings with the other thread are covered by rely/guarantee (havoc under the proved guarantee of store between atomic steps), not by sampling schedules.",
     note="A-GIL (atomic dict ops, Lock is a mutex), A-THREADS (one writer thread), container models of dict/defaultdict/deque/sorted (A-LIB), strategy.choose_item through its interface contract, the history induction accepted = held + drained is a meta-step over the per-operation contracts; home-made VC generator (A-ENGINE), z3/cvc5 (A-SMT)",
@@ -28,6 +32,10 @@ CLAIMED = {
     text="_MetricCache.store is verified from source for every cache state, datapoint and limit setting: size never exceeds CACHE_SIZE_HARD_MAX, a refusal fires cacheOverflow exactly once and leaves the whole view (keys, contents, new_metrics, size) unchanged, a duplicate timestamp is updated even when full. conf.py's derivation of the limits and events.py's handlers are checked syntactically.",
     note="store's body is one lock region (A-GIL); MAX_CACHE_SIZE is +inf or a real >= 1; events modelled by their default handlers; bucketmax store() is covered in C17; A-ENGINE, A-SMT",
     tech=TECH),
+  'C11': dict(
+    text="Exception-freedom of the three receivers and of metricReceived is verified from source for every argument value (arbitrary bytes, arbitrary unpickled object, loads() raising any Exception, nan/inf numbers): no path ends in an uncaught exception, a malformed item produces no dispatch and a well-formed neighbour is dispatched exactly once (per-item loop contracts).",
+    note="library raise-contracts A-STR (decode, split/unpack, float, int) and A-PICKLE (loads raises any Exception or returns any plain object; float(obj)/unpack/.encode raise-contracts); log.* calls dropped by the extraction are assumed not to raise; only Twisted's own length limits close a connection (A-TWISTED-FRAMING); A-ENGINE, A-SMT",
+    tech=TECH + "; exception-freedom obligations against library raise-contracts"),
   'C12': dict(
     text="MetricReceiver.metricReceived is verified from source on every path: a datapoint reaches events.metricReceived iff it is not blacklisted, not rejected by a non-empty whitelist and its value is not NaN; exactly -1 is replaced by the clock, MIN_TIMESTAMP_RESOLUTION rounds down to a multiple, name and value are passed unchanged; RegexList membership is verified with a loop invariant; a syntactic obligation shows all three listeners dispatch only through metricReceived.",
     note="re.search is an uninterpreted predicate (which patterns match is an input, not modelled); timestamps finite here (non-finite ones are C11); floats as tagged reals (A-REAL); RegexList.read_list (file parsing) not under contract; A-ENGINE, A-SMT",
